@@ -276,6 +276,17 @@ fn naming_patch_of(cat: u64, ex: u64, chunk: u64, parts: &[NP]) -> Vec<u8> {
                 t.extend_from_slice(&[0u8; 96]);
                 sqpk(&mut p, b'T', &t);
             }
+            NP::A(dat) if (cat + ex + chunk + dat) % 3 == 1 => {
+                // the data file named through a HeaderUpdate on it (version or data header) instead
+                // of an AddData: the file a command goes to depends on the FILE kind, not on the
+                // header kind
+                let mut h = vec![b'D', if (cat + dat) % 2 == 0 { b'V' } else { b'D' }, 0];
+                h.extend_from_slice(&(cat as u16).to_be_bytes());
+                h.extend_from_slice(&sub.to_be_bytes());
+                h.extend_from_slice(&(dat as u32).to_be_bytes());
+                h.extend_from_slice(&[0u8; 1024]);
+                sqpk(&mut p, b'H', &h);
+            }
             NP::A(dat) => {
                 // zero blocks at offset 0
                 let mut a = vec![0u8; 3];
@@ -288,7 +299,9 @@ fn naming_patch_of(cat: u64, ex: u64, chunk: u64, parts: &[NP]) -> Vec<u8> {
                 sqpk(&mut p, b'A', &a);
             }
             NP::H(fid) => {
-                let mut h = vec![b'I', b'I', 0];
+                // every index file has a version header, an index header (and the format allows a
+                // data header word as well): all three kinds of update go to the index file
+                let mut h = vec![b'I', [b'I', b'V', b'D'][((cat + ex + chunk) as usize + fid as usize / 2) % 3], 0];
                 h.extend_from_slice(&(cat as u16).to_be_bytes());
                 h.extend_from_slice(&sub.to_be_bytes());
                 h.extend_from_slice(&fid.to_be_bytes());
